@@ -57,6 +57,7 @@ class Ctx:
         self._cur_path = os.path.join(outdir, "current.json")
         self._cur_every = int(self.params.get("current_every", 1))
         self.notes = {}
+        self.inconclusive = []
 
     # ---- numpy generator derived from the python one (so one seed drives both)
     def np_rng(self):
@@ -99,6 +100,11 @@ class Ctx:
     def note(self, name, value):
         self.notes[name] = value
 
+    def inconclusive_because(self, reason):
+        """The oracle (not the library) could not decide a case: never folded into held or violated."""
+        if len(self.inconclusive) < 5:
+            self.inconclusive.append(str(reason)[:400])
+
     # ---- failures
     def fail(self, key, detail, case=None, monitor=None):
         """Record a monitor failure.  `key` is the mechanism key used by the known-findings classifier."""
@@ -121,7 +127,7 @@ class Ctx:
             "monitors": dict(self.monitors),
             "observed": {k: dict(v) for k, v in self.observed.items()},
             "samples": self.samples, "fail_counts": dict(self.fail_counts),
-            "notes": self.notes, "wall_s": round(time.time() - self.t0, 2),
+            "notes": self.notes, "inconclusive": self.inconclusive, "wall_s": round(time.time() - self.t0, 2),
         }
         with open(os.path.join(self.outdir, "summary.json"), "w") as f:
             json.dump(summary, f, default=_default)
